@@ -35,6 +35,7 @@ def check(run, driver):
         "value of the Lean model (brute-force declarative spec = code-shaped model is also checked); near-tie cases (relative key gap < 1e-12) "
         "are skipped and counted. Non-trivial = k>=2 or dims>=2 (kNN); N>=10 (KDE); distinct by content hash"
     )
+    from common import call_form
     thorough = run.tier == "thorough"
     rng = run.rng
     warnings.simplefilter("ignore")
@@ -58,14 +59,14 @@ def check(run, driver):
         X, Y, Z = W[:, :dx], W[:, dx:dx + dy], (W[:, dx + dy:] if dz else None)
         X0, Y0 = X.copy(), Y.copy()
         if Z is None:
-            val = float(knn_mutual_information(X, Y, metric=metric, k=k))
+            val = float(call_form(knn_mutual_information, "knn_mutual_information", it, X=X, Y=Y, metric=metric, k=k))      # every documented call form in turn
             for nm, v2 in (("knn_conditional_mutual_information(Z=None)", float(knn_conditional_mutual_information(X, Y, None, metric=metric, k=k))),
                            ("dispatcher(Z=None)", float(dispatcher(X, Y, None, method="knn", metric=metric, k=k)))):
                 if not (v2 == val or (nm.startswith("dispatcher") and v2 == max(0.0, val))):
                     run.prop_fail("the kNN estimate without conditioning set depends on the entry point used", {"N": N, "dx": dx, "dy": dy, "k": k, "metric": metric, "X": X0, "Y": Y0},
                                   {"estimator": "knn", "metric": metric, "conditional": False, "entry": nm}, {"knn_mutual_information": val, nm: v2})
         else:
-            val = float(knn_conditional_mutual_information(X, Y, Z, metric=metric, k=k))
+            val = float(call_form(knn_conditional_mutual_information, "knn_conditional_mutual_information", it, X=X, Y=Y, Z=Z, metric=metric, k=k))
         case = {"N": N, "dx": dx, "dy": dy, "dz": dz, "k": k, "metric": metric, "X": X0, "Y": Y0, "Z": Z}
         run.case("knn", [N, dx, dy, dz, k, metric, float(W[0, 0])], k >= 2 or dx + dy + dz >= 3, sample={k_: case[k_] for k_ in ("N", "dx", "dy", "dz", "k", "metric")} | {"impl": val})
         if not (np.array_equal(X, X0) and np.array_equal(Y, Y0)):
@@ -88,11 +89,11 @@ def check(run, driver):
             bw = float(sc * rng.uniform(0.2, 0.6))
         kind = ["entropy", "mi", "cmi"][(it // 3) % 3]
         if kind == "entropy":
-            val = float(kde_entropy(X, bandwidth=bw, kernel="gaussian")); args = {"X": fmat(X)}
+            val = float(call_form(kde_entropy, "kde_entropy", it, X=X, bandwidth=bw, kernel="gaussian")); args = {"X": fmat(X)}
         elif kind == "mi":
-            val = float(kde_mutual_information(X, Y, bandwidth=bw, kernel="gaussian")); args = {"X": fmat(X), "Y": fmat(Y)}
+            val = float(call_form(kde_mutual_information, "kde_mutual_information", it, X=X, Y=Y, bandwidth=bw, kernel="gaussian")); args = {"X": fmat(X), "Y": fmat(Y)}
         else:
-            val = float(kde_conditional_mutual_information(X, Y, Z, bandwidth=bw, kernel="gaussian")); args = {"X": fmat(X), "Y": fmat(Y), "Z": fmat(Z)}
+            val = float(call_form(kde_conditional_mutual_information, "kde_conditional_mutual_information", it, X=X, Y=Y, Z=Z, bandwidth=bw, kernel="gaussian")); args = {"X": fmat(X), "Y": fmat(Y), "Z": fmat(Z)}
         case = {"N": N, "dx": dx, "dy": dy, "dz": dz, "bandwidth": bw, "kind": kind, "X": X, "Y": Y, "Z": Z}
         run.case("kde", [N, dx, dy, dz, str(bw), kind, float(W[0, 0])], N >= 10, sample={k_: case[k_] for k_ in ("N", "dx", "bandwidth", "kind")} | {"impl": val})
         meta.append(("kde", case, val))
